@@ -5,7 +5,7 @@ func propertyTable() []*Property {
 		{ID: "C02", Technique: "static analysis: protocol-table lenses over constants, tables, emit sites and registrations (go/types + go/ssa)",
 			Decides: "tables", NotDecided: "values", RuleIDs: []string{"T1.wire-codes", "T2.tables", "T3.big-endian", "T5.list-registrations", "T6.map-registrations", "PTR-CHASE", "T4.writer-lens", "T7.reader-lens", "T9.wire-type-bytes", "T8.equal-lens"}},
 		{ID: "C05", Technique: "static analysis: linear-inequality cursor-bounds analysis + wire-length taint/sanitiser dominance over SSA",
-			Decides: "bounds", NotDecided: "values", RuleIDs: []string{"E4.cursor-bounds"}},
+			Decides: "bounds", NotDecided: "values", RuleIDs: []string{"E4.cursor-bounds", "E5.length-sanitised", "E5.guards-error", "E5.loops"}},
 	}
 }
 
